@@ -67,6 +67,13 @@ from ..util.concurrency import AsyncAdaptedLock
 
 _T = TypeVar("_T", bound=Any)
 
+# guards the lazy creation of _CompoundListener._exec_once_mutex.  This must
+# be a real lock also when the GIL is present: the interpreter can switch
+# threads between the "is it there" check and the assignment, in which case
+# two callers of exec_once() would each lock their own mutex and both run
+# the listeners.
+_exec_once_mutex_creation = threading.Lock()
+
 if typing.TYPE_CHECKING:
     from .base import _Dispatch
     from .base import _DispatchCommon
@@ -433,7 +440,7 @@ class _CompoundListener(_InstanceLevelDispatch[_ET]):
         self._is_asyncio = True
 
     def _get_exec_once_mutex(self) -> _MutexProtocol:
-        with util.mini_gil:
+        with _exec_once_mutex_creation:
             if self._exec_once_mutex is not None:
                 return self._exec_once_mutex
 
